@@ -31,6 +31,7 @@ def steady_cases(draw, tier="quick"):
          "obs": draw(st.sampled_from(["equal", "none", "subset", "offnode", "samelen"])),
          "obs_frac": draw(st.lists(st.floats(0.02, 0.98), min_size=1, max_size=5)),
          "obs_idx": draw(st.lists(st.integers(0, n - 1), min_size=1, max_size=n, unique=True)),
+         "obs_unsorted": draw(st.booleans()),
          "omap": draw(st.sampled_from(["none", "square", "first2", "affine"])),
          "direction": draw(gen.vec(12))}
     return c
@@ -83,6 +84,8 @@ def obs_grid(c, grid):
     if c["obs"] == "equal":
         return grid.copy()
     if c["obs"] == "subset":
+        if c.get("obs_unsorted"):
+            return grid[list(c["obs_idx"])]      # observation nodes listed in the user's own order (steady-state problems only)
         return grid[sorted(c["obs_idx"])]
     if c["obs"] == "samelen":
         # same number of nodes, first and last coincide with the solution grid, interior nodes moved half a cell
@@ -134,9 +137,10 @@ def run_steady(c, rec):
         want = u
     else:
         want = interp1d(grid, u, kind="quadratic")(gobs)
-        if c["obs"] == "subset":  # exact at coinciding nodes
-            require(close(want, u[sorted(c["obs_idx"])], 1e-9), "reference interpolant not exact at nodes (harness)")
-            want = u[sorted(c["obs_idx"])]
+        if c["obs"] == "subset":  # exact at coinciding nodes, in the order the observation nodes are listed
+            idxs = list(c["obs_idx"]) if c.get("obs_unsorted") else sorted(c["obs_idx"])
+            require(close(want, u[idxs], 1e-9), "reference interpolant not exact at nodes (harness)")
+            want = u[idxs]
     if OMAPS[c["omap"]] is not None:
         want = OMAPS[c["omap"]](want)
     require(np.asarray(got).shape == np.asarray(want).shape and close(got, want, 1e-9),
@@ -187,6 +191,7 @@ def time_cases(draw, tier="quick"):
          "tfrac": draw(st.lists(st.floats(0.05, 0.95), min_size=1, max_size=3, unique=True)),
          "grid": sorted(set(draw(st.lists(st.integers(0, 40), min_size=n, max_size=n, unique=True)))),
          "int_ic": draw(st.sampled_from([False, False, True])), "second_parameter": draw(st.booleans()),
+         "ramp_source": draw(st.sampled_from([False, False, True])),
          "obs": draw(st.sampled_from(["equal", "none", "subset", "offnode", "samelen"])),
          "obs_frac": draw(st.lists(st.floats(0.02, 0.98), min_size=1, max_size=5)),
          "obs_idx": draw(st.lists(st.integers(0, n - 1), min_size=1, max_size=n, unique=True)),
@@ -206,6 +211,8 @@ def time_parts(c):
         return L0 + t * L1 - sum(abs(ti) * d for ti, d in zip(th, Dk))
 
     def fof(th, t):
+        if c.get("ramp_source"):
+            return (t - c["t0"]) * (f1 + F @ th)     # a source that is exactly zero at the first time level and switches on afterwards
         return f0 + t * f1 + F @ th
 
     def ic(th, t=0.0):
